@@ -89,6 +89,11 @@ func listMutants(prop, verif string) []mutantSpec {
 			out = append(out, mutantSpec{Name: "seeded/" + filepath.Base(filepath.Dir(m)), Patch: pf, Seeded: true})
 		}
 	}
+	// behaviour-preserving refactors written by independent agents: every check must stay silent on each
+	bs, _ := filepath.Glob(filepath.Join(verif, "benign", "*", "patch.diff"))
+	for _, f := range bs {
+		out = append(out, mutantSpec{Name: "benign/" + filepath.Base(filepath.Dir(f)), Patch: f, Benign: true})
+	}
 	sort.Slice(out, func(i, j int) bool { return out[i].Name < out[j].Name })
 	return out
 }
@@ -146,7 +151,7 @@ func thoroughExtras(c *Ctx, pd *propDef, repo, verif string) {
 	}
 	results := make([]mutRes, len(muts))
 	var wg sync.WaitGroup
-	sem := make(chan struct{}, 4)
+	sem := make(chan struct{}, 6)
 	for i, m := range muts {
 		wg.Add(1)
 		go func(i int, m mutantSpec) {
